@@ -1029,6 +1029,9 @@ class Interp:
         heap = st.heap.setdefault(base.oid, {})
         if attr == '__class__':
             return AV(ty='class', cls=base.cls)
+        if attr == '__dict__':
+            # the instance dictionary: used for private per-object caches
+            return AV(ty='dict', open_kw=True, instance_dict_of=base.oid, deps=base.deps)
         if base.oids and not attr.startswith('#'):
             vals = [st.heap[o][attr] for o in base.oids if o in st.heap and attr in st.heap[o]]
             if len(vals) > 1:
